@@ -25,6 +25,7 @@
 
 
 #include "ElementPrefixResolverProxy.hpp"
+#include "MutableNodeRefList.hpp"
 #include "XObjectFactoryDefault.hpp"
 #include "XPathEnvSupportDefault.hpp"
 #include "XPathConstructionContextDefault.hpp"
@@ -496,6 +497,16 @@ XPathEvaluator::evaluate(
     m_executionContext->setXObjectFactory(m_xobjectFactory.get());
 
     m_executionContext->setDOMSupport(&domSupport);
+
+    // The context node is the only node in the context node list,
+    // so position() and last() are 1.
+    MutableNodeRefList  theContextNodeList(m_memoryManager);
+
+    theContextNodeList.addNode(contextNode);
+
+    const XPathExecutionContext::ContextNodeListPushAndPop  thePushAndPop(
+            *m_executionContext.get(),
+            theContextNodeList);
 
     // OK, evaluate the expression...
     const XObjectPtr    theResult(
